@@ -143,3 +143,28 @@ Theorem C16_extend_panic : forall e v c hint xs j v',
     fold_left (fun acc x => match acc with Panic k => Panic k | Ret w => push e w x end) (skipn j xs) (Ret v').
 Proof. exact extend_panic_spec. Qed.
 Print Assumptions C16_extend_panic.
+
+(* ---------- the loop of Vec::truncate as /repo's source has it (TruncWalkOk.v; the `for` statement
+   translated on every run): each round lowers the guard's length, steps the pointer back and only
+   then runs the destructor, which may panic.  For every count and every script of returning /
+   panicking destructors the run is the function trun, and trun is VecModel.truncate_loop: elements
+   dropped from the back, the length already lowered when a destructor runs, a panic stops it there
+   (so the panicking element is outside the vector and is not dropped again) ---------- *)
+From BV Require Import DedupWalkOk TruncWalkOk.
+Theorem C16_source_truncate_loop : forall len cur base tr sc f, len <= cur -> base + cur < W ->
+  (N.to_nat (cur - len) <= List.length sc)%nat ->
+  let '(t, q, b) := trun (N.to_nat (cur - len)) (base + cur) sc in
+  exec src_fns (S (S (S (S (S f))))) (tenv len cur (base + cur)) tr sc tloop =
+  if b then XPanic (tenv len cur q) (List.app tr t)
+  else XOk (tenv len cur q) (List.app tr t) (skipn (N.to_nat (cur - len)) sc).
+Proof. exact loop_is_trun. Qed.
+
+Theorem C16_source_truncate_loop_is_the_model : forall j buf boom base target cur acc,
+  (j <= cur)%nat ->
+  let '(t, q, b) := trun j (base + N.of_nat cur) (script_for buf boom cur j) in
+  truncate_loop buf boom target cur j acc = ((cur - decs_of t)%nat, List.app acc (drops_of base buf t), b) /\
+  q = base + N.of_nat (cur - decs_of t).
+Proof. exact trun_is_truncate_loop. Qed.
+
+Print Assumptions C16_source_truncate_loop.
+Print Assumptions C16_source_truncate_loop_is_the_model.
